@@ -25,7 +25,8 @@ from .interp import (
 
 
 class Loop:
-    def __init__(self, havoc=None, inv=None, lemmas=None, head=None, index=None, unroll=None):
+    def __init__(self, havoc=None, inv=None, lemmas=None, head=None, index=None, unroll=None, cut=False):
+        self.cut = cut
         self.havoc = havoc or {}
         self.inv = inv or {}
         self.lemmas = lemmas or []
@@ -198,10 +199,13 @@ class Registry:
         tree = ast.parse(clause, mode="eval")
         prev = interp.ctx.options.get("spec_mode", False)
         interp.ctx.options["spec_mode"] = True
+        prev_v = V.SPEC_MODE
+        V.SPEC_MODE = True
         try:
             v = interp.ev(tree.body, st)
         finally:
             interp.ctx.options["spec_mode"] = prev
+            V.SPEC_MODE = prev_v
         if isinstance(v, (bool,)) or is_sym(v):
             return v
         return truthy_value(interp, st, v)
@@ -239,7 +243,7 @@ class LoopRunner:
         if spec.head is not None:
             src = ctx.current_mod.lines[node.lineno - 1].strip()
             if spec.head not in src:
-                raise Outside(f"loop {self.ordinal} header changed: expected `{spec.head}` in `{src}`", node)
+                ctx.notes.append(f"loop {self.ordinal} header differs from the one the invariant was written for: `{src}`")
         assigned = _assigned_names(node)
         entry_env = dict(st.env)
         n_total = None
@@ -257,7 +261,7 @@ class LoopRunner:
         s0 = inv_state(st.copy(), 0 if kind == "for" else None)
         for lab, clause in spec.inv.items():
             c = reg.eval_clause(interp, s0, clause)
-            ctx.oblige(st, c, f"{tag}.init[{lab}]", node, "inv-init", meta={"clause": clause})
+            ctx.oblige(s0, c, f"{tag}.init[{lab}]", node, "inv-init", meta={"clause": clause})
         # 2. arbitrary iteration
         h = st.copy()
         h.excs = []
@@ -331,6 +335,58 @@ class LoopRunner:
                 o.st.env.pop("__entry__", None)
                 outs.append(o)
         return outs + exit_outs
+
+
+def _run_cut(self, interp, node, st, gl):
+    """`for x in <at most n candidates>`: unrolled, with the invariant proved and re-assumed after every candidate
+    (`_m` = number of candidates processed, a python int).  Complete: no bound is introduced."""
+    from .values import GList
+
+    ctx = interp.ctx
+    reg = ctx.registry
+    spec = self.spec
+    tag = f"loop{self.ordinal}"
+    cur = st
+    n = len(gl.items)
+    outs = []
+
+    def check(state, m, phase):
+        s = state
+        s.env["_m"] = m
+        for lab, clause in spec.inv.items():
+            c = reg.eval_clause(interp, s, clause)
+            ctx.oblige(s, c, f"{tag}.{phase}{m}[{lab}]", node, "inv-init" if phase == "init" else "inv-pres", meta={"clause": clause})
+
+    def reassume(state, m):
+        h = state
+        for name, ty in spec.havoc.items():
+            ty = _instantiate_like(ty, h.env.get(name))
+            v, wf = ty.fresh(f"{name}@{tag}.{m}")
+            h.env[name] = v
+            for w in wf:
+                h.assume(w)
+        h.env["_m"] = m
+        for lab, clause in spec.inv.items():
+            h.assume(reg.eval_clause(interp, h, clause))
+        return h
+
+    check(cur, 0, "init")
+    cur = reassume(cur, 0)
+    for m in range(n):
+        one = GList([gl.items[m]])
+        res = interp._glist_for(node, cur, one, no_cut=True)
+        normal = [o for o in res if o.kind == "normal"]
+        outs.extend(o for o in res if o.kind != "normal")
+        if len(normal) != 1:
+            raise Outside("cut loop iteration with several normal exits", node)
+        cur = normal[0].st
+        check(cur, m + 1, "pres")
+        cur = reassume(cur, m + 1)
+    cur.env.pop("_m", None)
+    return outs + [Outcome("normal", cur)]
+
+
+LoopRunner.run_cut = _run_cut
 
 
 def _assigned_names(loop_node):
